@@ -69,6 +69,35 @@ def run_nw(ctx, what, args):
     return tr, info
 
 
+def judge_nw(ctx, tr, what, ntraces, timeout=2400):
+    """Step conformance (Trace_NitroWriters.tla).  If the real control flow leaves the model (no action matches a line),
+    that scenario is judged from path-independent facts (NitroWritersAPI.tla); without such a fact the rejection stays
+    what it is: model drift, exit 2."""
+    bad = ctx.validate("Trace_NitroWriters.tla", "Trace_NitroWriters.cfg", tr, what, ntraces, timeout=timeout)
+    if bad is None:
+        return True
+    tla, cfg = "Trace_NitroWriters.tla", "Trace_NitroWriters.cfg"
+    first, sc = vlib.cut_scenario(tr, bad["line"], reset)
+    p = os.path.join(ctx.wd, "failing-trace.ndjson")
+    with open(p, "w") as f:
+        f.write("\n".join(sc) + "\n")
+    if bad["kind"] == "reject":
+        step_msg = bad["msg"]
+        log("[M4] %s: %s; judging that scenario at the API level" % (what, step_msg))
+        saved = (ctx.events, ctx.traces)
+        bad = ctx.validate("NitroWritersAPI.tla", "NitroWritersAPI.cfg", p, what + " [API-level facts of the scenario the step model rejects]", 0)
+        ctx.events, ctx.traces = saved
+        if bad is None or bad["kind"] == "reject":
+            raise Infra("%s: %s" % (what, step_msg))
+        tla, cfg = "NitroWritersAPI.tla", "NitroWritersAPI.cfg"
+        bad["line"] += first - 1
+        bad["msg"] += " (and the call took a path the step model does not have: event %d)" % (int(re.findall(r"line (\d+)", step_msg)[0]) - first + 1)
+    ctx.violation("%s [%s, event %d of the failing scenario]" % (bad["msg"], what, bad["line"] - first + 1),
+                  files=[p], meta={"trace_spec": tla, "cfg": cfg, "driver": what,
+                                   "how_to_replay": "bin/check %s %s --replay <this dir> re-validates failing-trace.ndjson" % (ctx.pid, ctx.tier)})
+    return False
+
+
 def conformance(ctx, thorough, seed_off=0):
     """NitroWriters.tla bound to the real writers: TLC-simulated behaviours as gate schedules (M3), seeded random
     schedules (M2); every model action is one event, TLC (Trace_NitroWriters.tla) replays them and compares every
@@ -94,13 +123,11 @@ def conformance(ctx, thorough, seed_off=0):
     ends = [json.loads(l) for l in open(tr) if '"NwEnd"' in l]
     ctx.extra["nw_schedule_steps_followed_on_impl"] = "%d of %d gate steps followed the TLC behaviour" % (
         sum(e["followed"] for e in ends), sum(len(e["sched"]) for e in ends))
-    ok = vlib.judge_trace(ctx, "Trace_NitroWriters.tla", "Trace_NitroWriters.cfg", tr,
-                          "TLC-simulated NitroWriters behaviours on the real writers (gate)", info["scenarios"], reset, timeout=2400)
+    ok = judge_nw(ctx, tr, "TLC-simulated NitroWriters behaviours on the real writers (gate)", info["scenarios"])
     first = tr
     if ok or thorough:
         tr2, info2 = run_nw(ctx, "m2", ["-seed", vlib.seed() * 10 + seed_off, "-n", 3000 if thorough else 300])
-        vlib.judge_trace(ctx, "Trace_NitroWriters.tla", "Trace_NitroWriters.cfg", tr2,
-                         "random gate schedules of 2-3 writers on one key", info2["scenarios"], reset, timeout=2400)
+        judge_nw(ctx, tr2, "random gate schedules of 2-3 writers on one key", info2["scenarios"])
         ctx.extra["nw_step_conformance_events"] = info["events"] + info2["events"]
         os.remove(tr2)
     # binding demonstration: flip the logged result of one cross-epoch delete
@@ -122,4 +149,23 @@ def conformance(ctx, thorough, seed_off=0):
                     raise Infra("binding self-test failed: a trace with a flipped delete result was accepted")
                 ctx.extra["nw_binding_selftest"] = "flipped N4 result -> rejected: " + bad["msg"]
                 break
+        # the API-level judge (used when the step model rejects): a successful DelRet reported twice must be refused
+        for i, ln_ in enumerate(lines):
+            if '"DelRet"' in ln_ and '"res":true' in ln_.replace(" ", ""):
+                start = max(k for k in range(0, i + 1) if '"NwInit"' in lines[k])
+                end = next((k for k in range(i + 1, len(lines)) if '"NwInit"' in lines[k]), len(lines))
+                cp = os.path.join(ctx.wd, "corrupt2.ndjson")
+                open(cp, "w").write("\n".join(lines[start:i + 1] + [ln_] + lines[i + 1:end]) + "\n")
+                saved = (ctx.events, ctx.traces, ctx.states, ctx.transitions)
+                ok_ = ctx.validate("NitroWritersAPI.tla", "NitroWritersAPI.cfg", os.path.join(ctx.wd, "corrupt2.ndjson"), "API judge self-test (one successful DelRet duplicated)", 0)
+                acc = ctx.validate("NitroWritersAPI.tla", "NitroWritersAPI.cfg", first, "API judge on the unmodified trace", 0)
+                ctx.events, ctx.traces, ctx.states, ctx.transitions = saved
+                if ok_ is None or not ok_["msg"].startswith("C03"):
+                    raise Infra("API judge self-test failed: a duplicated successful delete was accepted")
+                if acc is not None:
+                    raise Infra("NitroWritersAPI.tla refuses a trace that the step model accepts: " + acc["msg"])
+                ctx.extra["nw_api_judge_selftest"] = "duplicated successful DelRet -> " + ok_["msg"]
+                break
+        else:
+            raise Infra("no successful Delete2 in the conformance trace (vacuous)")
     os.remove(first)
